@@ -174,7 +174,7 @@ fn dir_tamper_strategy() -> impl Strategy<Value = DirTamper> {
         2 => (f(), p()).prop_map(|(file, newlen)| DirTamper::Truncate { file, newlen }),
         2 => (f(), prop::collection::vec(any::<u8>(), 1..4)).prop_map(|(file, extra)| DirTamper::Append { file, extra }),
         2 => f().prop_map(|file| DirTamper::Delete { file }),
-        3 => (0u8..5, f(), p(), 1u8..=255).prop_map(|(place, file, pos, xor)| DirTamper::ShadowImmutableDir { place, file, pos, xor }),
+        3 => (0u8..7, f(), p(), 1u8..=255).prop_map(|(place, file, pos, xor)| DirTamper::ShadowImmutableDir { place, file, pos, xor }),
         3 => (f(), prop::option::of(0u8..3)).prop_map(|(file, symlink)| DirTamper::ReplaceByNonFile { file, symlink }),
         1 => f().prop_map(|trio| DirTamper::DeleteTrio { trio }),
         2 => (f(), small_content_strategy()).prop_map(|(file, content)| DirTamper::ReplaceFresh { file, content }),
@@ -537,7 +537,8 @@ fn apply_dir_tamper(w: &mut World, db: &Db10, t: &DirTamper, labels: &mut BTreeS
             }
         }
         DirTamper::ShadowImmutableDir { place, file, pos, xor } => {
-            let place_name = ["ledger", "volatile", "aaa", "zzz", ".hidden"][*place as usize % 5];
+            // beside <db>/immutable, and INSIDE it (<db>/immutable/immutable, <db>/immutable/x/immutable)
+            let place_name = ["ledger", "volatile", "aaa", "zzz", ".hidden", "immutable", "immutable/x"][*place as usize % 7];
             let shadow = w.imm_dir.parent().expect("db dir").join(place_name).join("immutable");
             std::fs::create_dir_all(&shadow).expect("mkdir");
             for (n, b) in w.model.clone() {
